@@ -146,7 +146,8 @@ def run_impl(cfg, workdir, sampler_hook=None, reuse=None, tag="run"):
                           "cur_after": col(self_.current_model), "x_after": float(self_.current_x),
                           "acc_after": self_.accepted_proposals,
                           "mom": (col(self_.current_momentum), col(self_.proposed_momentum)) if cfg["kind"] == "hmc" else None,
-                          "k": (float(self_.current_k), float(self_.proposed_k)) if cfg["kind"] == "hmc" else None})
+                          "k": (float(self_.current_k), float(self_.proposed_k)) if cfg["kind"] == "hmc" else None,
+                          "req_end": len(getattr(self_.rng, "requests", []))})
             return out
 
         def _init_sampler(self_, *a, **k):
